@@ -424,6 +424,13 @@ example : (((⟨⟨1, 0⟩, none⟩ : Msg).setContent {} .plain tU32 vU32).2.try
 /-- a declared length of 2^29 bytes is charged (2^29 + 64) * 8 bits — more than `u32::MAX` -/
 example : ((⟨⟨1, 0⟩, none⟩ : Msg).setContent {} (.withLen 536870912) tU32 vU32).2.chargedBits = 4294967808 := by rfl
 
+/-- collections of one-byte elements measure the declared lengths, not the element count:
+    `Vec<Flag>` (fieldless derived enum: 0 each), `Vec<Option<bool>>` (None 0, Some 1),
+    `Vec<Word>` (hand-written 2 each) -/
+example : byteLen (.seq [.enum 0 [], .enum 2 [], .enum 1 []]) = 0 ∧
+    byteLen (.seq [.none, .some (.prim 1 1), .none]) = 1 ∧
+    byteLen (.seq [.fixed 2 7, .fixed 2 8]) = 4 := ⟨by rfl, by rfl, by rfl⟩
+
 /-- `[String; 3]` = ["abc", "", "z"]: 4 bytes — not `3 * 3` (first element times N) -/
 example : byteLen (.array [.str [97, 98, 99], .str [], .str [122]]) = 4 := by rfl
 /-- `[Option<u32>; 4]` = [None, Some, None, Some]: 8 — not 0 -/
